@@ -286,6 +286,9 @@ func (eng *Engine) verifyFunc(fn *ssa.Function, fc *FuncContract, props []string
 		if fc.HasMod {
 			e.frameCheck(ex.st, entry, fc, int(ex.kind))
 		}
+		if pt, ok := fc.Flags["preserves_types"]; ok && !fc.Trusted {
+			e.preservesCheck(ex.st, strings.Fields(pt), int(ex.kind), fc)
+		}
 	}
 	res.Obls = e.obls
 	for _, o := range res.Obls {
@@ -656,7 +659,10 @@ func (e *Exec) callByContract(st *State, c *FuncContract, callee *ssa.Function, 
 	if maySoft {
 		sp = e.sc.fresh("sp."+sanitize(name), "Bool")
 	}
-	for _, cl := range c.Ensures {
+	if len(c.Lists["ensures_assumed"]) > 0 {
+		e.libUsed["trusted-contract:"+name+" (clauses marked ensures_assumed)"] = true
+	}
+	for _, cl := range append(append([]Clause(nil), c.Ensures...), c.Lists["ensures_assumed"]...) {
 		if cl.Variant != "" && c.variantExpr(cl.Variant) == "" {
 			// clause of a type scenario of the callee: usable when the caller is being verified
 			// under a matching scenario and passes its scenario parameter through unchanged
@@ -1029,7 +1035,7 @@ func (e *Exec) cutLoopHead(fn *ssa.Function, fc *FuncContract, l *loopInfo, st *
 			}
 		}
 	}
-	e.havocKeysSorted(st, keys, all, written)
+	e.havocKeysSorted(st, keys, all, written, l.body)
 	// call counters are non-negative and bounded (assumption: fewer than 2^40 calls per invocation)
 	for name, t := range e.ghostTypes {
 		if e.rawGhost[name] {
@@ -1145,8 +1151,8 @@ func (e *Exec) checkLoopBack(fn *ssa.Function, fc *FuncContract, l *loopInfo, st
 	}
 }
 
-func (e *Exec) havocKeysSorted(st *State, keys map[string]string, all bool, written map[*ssa.FreeVar]bool) {
-	e.havocKeysW(st, keys, all, written)
+func (e *Exec) havocKeysSorted(st *State, keys map[string]string, all bool, written map[*ssa.FreeVar]bool, body map[*ssa.BasicBlock]bool) {
+	e.havocKeysB(st, keys, all, written, body)
 }
 
 type loopHeadMem struct {
@@ -1325,6 +1331,9 @@ func (e *Exec) precreateRets(st *State, fn *ssa.Function, name string) {
 			var names []string
 			if cal := c.Call.StaticCallee(); cal != nil {
 				names = append(names, cal.Name())
+				if qn := staticQualName(cal); qn != "" {
+					names = append(names, qn)
+				}
 			} else if c.Call.IsInvoke() {
 				names = append(names, c.Call.Method.Name(), qualName(&c.Call))
 			} else if prm, ok := c.Call.Value.(*ssa.Parameter); ok {
@@ -1409,5 +1418,25 @@ func (e *Exec) precreateRetsBySig(st *State, fn *ssa.Function, name string) {
 			rt := sig.Results().At(i).Type()
 			e.ghostGet(st, g, rt, e.sc.zero(rt))
 		}
+	}
+}
+
+// preservesCheck: a function under (untrusted) contract that declares `preserves_types T...`
+// must leave every field of every object of these types that existed at entry unchanged.
+func (e *Exec) preservesCheck(st *State, typs []string, xi int, fc *FuncContract) {
+	e.keepTypes = typs
+	defer func() { e.keepTypes = nil }()
+	topE := e.top(e.entry)
+	for _, k := range sortedKeys(st.mem) {
+		if !e.keepsType(k) {
+			continue
+		}
+		cur, init := st.mem[k], e.initMem[k]
+		if cur == init || init == "" {
+			continue
+		}
+		r := e.sc.fresh("fr", "Int")
+		goal := imp(fmt.Sprintf("(and (>= %s 0) (< %s %s))", r, r, topE), fmt.Sprintf("(= (select %s %s) (select %s %s))", cur, r, init, r))
+		e.checkPost(st, "frame", "preserves."+k+exitSuffix(xi), goal, nil, fmt.Sprintf("%s:%d", fc.File, fc.Line))
 	}
 }
